@@ -110,6 +110,7 @@ Spec == Init /\ [][Next]_vars
 
 InvColumnOrder == ColumnOrderInvariant(F)
 InvRowOrder == RowOrderInvariant(F)
+InvLoopRefines == LoopRefinesParse(F)
 \* parse o encode = identity on what the generator intended (spot facts)
 InvIntended ==
   LET I == Parse(F) IN
